@@ -25,7 +25,7 @@ git apply _seeded/patch.diff
 rm -f $demo_dst
 echo "== existing tests with patch" >> $log
 pkgs=$(git diff --name-only | xargs -n1 dirname | sort -u | sed 's#^#./#; s#$#/...#' | paste -sd' ')
-extra="./interpreter/... ./sema/... ./runtime/... ./bbq/... ./stdlib/... ./encoding/... ./parser/... ./ast/... ./common/... ./values/..."
+extra="./interpreter/... ./sema/... ./runtime/... ./bbq/... ./stdlib/..."
 go test -vet=off -count=1 $pkgs $extra 2>&1 | grep -v "no test files" >> $log; rc_suite=${PIPESTATUS[0]}
 git checkout -q -- go.mod go.sum 2>/dev/null
 cp _seeded/patch.diff $out/patch.diff; cp $demo_src $out/demo_test.go; cp _seeded/meta.json $out/meta.seeder.json 2>/dev/null
